@@ -656,6 +656,8 @@ fn check(t: &Target, c: &Case) -> Verdict {
         // attributes an abort or hang with a backtrace
         if (only as usize) < muts.len() {
             n = 1;
+            // the same cap as in the forked batches of the search, so that a replay sees what it saw
+            forked::cap_address_space();
             if std::env::var_os("NV_TRACE_MUTANT").is_some() {
                 eprintln!("mutant #{only} {:?}", muts[only as usize]);
             }
@@ -701,9 +703,16 @@ fn check(t: &Target, c: &Case) -> Verdict {
                     // the parent's address space layout, so equal raw backtraces mean the same site.
                     // Only the first death per distinct raw backtrace is re-run alone with a
                     // symbolised backtrace (seconds); the others reuse its attribution.
-                    let raw = forked::raw_backtrace(&std::fs::read_to_string(&stderr_path).unwrap_or_default());
+                    let err0 = std::fs::read_to_string(&stderr_path).unwrap_or_default();
+                    let raw = forked::raw_backtrace(&err0);
                     let cached = raw.as_ref().and_then(|k| forked::SITES.lock().ok().and_then(|m| m.get(k).cloned()));
-                    let sig_msg: Option<(String, String)> = if let Some(sig) = cached {
+                    // a refused allocation says so on stderr: the class needs no re-run (and inside a
+                    // batch the headroom left depends on what earlier mutants left mapped, so a re-run
+                    // alone may well be served)
+                    let refused = err0.lines().find(|l| l.contains("memory allocation of")).map(|l| l.trim().to_string());
+                    let sig_msg: Option<(String, String)> = if let Some(line) = refused {
+                        Some((format!("abort:{signame}:memory-allocation-refused@{}", t.name), format!("process died with {signame} — {line} — on mutant #{at} {:?} of a {}-byte input", muts[at], prep.base.len())))
+                    } else if let Some(sig) = cached {
                         Some((sig, format!("process died with {signame} on mutant #{at} {:?} of a {}-byte input", muts[at], prep.base.len())))
                     } else if attributed < 12 {
                         attributed += 1;
@@ -717,9 +726,16 @@ fn check(t: &Target, c: &Case) -> Verdict {
                             let err = std::fs::read_to_string(&stderr_path).unwrap_or_default();
                             let (site, first) = orchestrate::abort_site(&err);
                             let signame2 = orchestrate::signal_name(s2);
-                            let sig = match site {
-                                Some(f) => format!("abort:{signame2}:{f}"),
-                                None => format!("abort:{signame2}@{}", t.name),
+                            // a refused allocation is one class per target, whichever site asked
+                            // (see the cap in `forked`): the defect is "allocates what a length field
+                            // says before checking it against the input"
+                            let sig = if first.contains("memory allocation of") {
+                                format!("abort:{signame2}:memory-allocation-refused@{}", t.name)
+                            } else {
+                                match site {
+                                    Some(f) => format!("abort:{signame2}:{f}"),
+                                    None => format!("abort:{signame2}@{}", t.name),
+                                }
                             };
                             if let (Some(k), Ok(mut m)) = (raw, forked::SITES.lock()) {
                                 m.insert(k, sig.clone());
@@ -1230,6 +1246,20 @@ mod forked {
         }
     }
 
+    /// Soft RLIMIT_AS = what is mapped now + 2 GiB.
+    pub fn cap_address_space() {
+        let mapped: u64 = std::fs::read_to_string("/proc/self/statm").ok().and_then(|t| t.split_whitespace().next().and_then(|p| p.parse::<u64>().ok())).map(|pages| pages * 4096).unwrap_or(2 << 30);
+        let cap = mapped + (2 << 30);
+        let mut lim = libc::rlimit { rlim_cur: 0, rlim_max: 0 };
+        // SAFETY: plain syscalls with a valid pointer.
+        unsafe {
+            if libc::getrlimit(libc::RLIMIT_AS, &mut lim) == 0 {
+                lim.rlim_cur = if lim.rlim_max == libc::RLIM_INFINITY { cap } else { cap.min(lim.rlim_max) };
+                libc::setrlimit(libc::RLIMIT_AS, &lim);
+            }
+        }
+    }
+
     pub fn run_batch(start: usize, end: usize, run: &dyn Fn(usize) -> (bool, Vec<Fail>), stderr_path: &Path, per_eval_timeout_ms: i32) -> (Vec<Out>, BatchEnd) {
         run_batch_opts(start, end, run, stderr_path, per_eval_timeout_ms, true)
     }
@@ -1257,6 +1287,13 @@ mod forked {
                 }
             }
             crate::engine::shard::case_finished(); // the parent's per-case watchdog does not exist here
+            // Address-space cap for this batch (soft limit, relative to what is mapped now, 2 GiB of
+            // headroom): a mutant that turns a length field into gigabytes gets its request refused at
+            // once instead of being served — several shards zero-filling 4 GiB each at the same time
+            // put a smaller machine under memory pressure, and a reader that returns after two
+            // minutes of page faults looked like one that does not return (a false "hang", seen in a
+            // fresh sandbox under seed 1). A refused request aborts; that is one listed class per target.
+            cap_address_space();
             if raw_handler {
                 unsafe {
                     // load the unwinder now: backtrace() must not allocate inside the handler
